@@ -23,7 +23,7 @@ VARIABLES pre,    \* state before the last event
           gh      \* ghosts
 
 InitEv == [step |-> "Init", conn |-> 0, req |-> [k |-> "none"], given |-> [k |-> "none"], proc |-> FALSE,
-           sid |-> 0, ret |-> "ok", out |-> NoOut, dead |-> {}, obsOK |-> TRUE,
+           sid |-> 0, ret |-> "ok", out |-> NoOut, dead |-> {}, obsOK |-> TRUE, orphans |-> {},
            paired |-> FALSE, fl |-> {}, out0 |-> NoOut, same0 |-> TRUE, reqs |-> <<>>, rets |-> <<>>]
 
 IsStep  == ev.step # "Init"
@@ -395,6 +395,7 @@ Ok_C07 ==
              /\ (ev.step # "Block" => Cardinality(DOMAIN cur.sess[s].mem) = 1)
     /\ gh.fresh
     /\ ev.dead = {}         \* no ended session keeps a running frame worker
+    /\ ev.orphans = {}      \* nobody is in a session other than the one registered under its id
 
 (***************************************************************************)
 (* Concurrent blocks (schedules clauses of C01, C02, C07, C09): a block is *)
@@ -476,6 +477,7 @@ Ok_C10 ==
     /\ \A s1, s2 \in DOMAIN cur.sess : cur.sess[s1].uuid = cur.sess[s2].uuid => s1 = s2
     /\ DOMAIN cur.sess \cap cur.free = {}
     /\ ev.obsOK      \* names <-> ids are inverse, every object is filed under its own id
+    /\ ev.orphans = {} \* two live sessions never share an id: every connection's session is the registered one
 
 (***************************************************************************)
 (* C11  pose updates: parked, coalesced per frame, relayed in order        *)
